@@ -72,6 +72,7 @@ net = None
 VStream = None
 CLASSES = {}
 REC = None          # active recorder
+NCASE = 0
 WARN_TEXT = 'network path could not be determined'
 
 
@@ -85,6 +86,8 @@ class Recorder:
         self.in_from_units = False
         self.fu_recycle = False
         self.foreign = False
+        self.asm = set()
+        self.trace = False           # line tracing of the recycle assembly: every 4th case (it is slow)
         self.marked = set()          # stream ids that are disjunctions by the documented semantics of mark / unmark
 
     def sid(self, s):
@@ -182,6 +185,34 @@ def setup():
             order.append(next(k for k, b in enumerate(before) if b is f and k not in order))
         rec.lines.append(('feeds ' + ','.join(str(int(f.F_mass)) for f in before), 'order=' + ','.join(map(str, order))))
         if order != sorted(order): rec.tags.add('feeds:reordered')
+
+    # which lines of the (unmodelled) recycle assembly really ran during from_units: evidence tags `asm:<function>+<line>`
+    import sys as _sys
+    traced = {'join_recycle_network', '_insert_recycle_network', 'join_network_at_unit', '_append_network',
+              '_add_linear_network', 'reduce_recycles'}
+    netfile = net.__file__
+
+    def local_trace(frame, event, arg):
+        if event == 'line' and REC is not None:
+            code = frame.f_code
+            REC.asm.add(f'asm:{code.co_name}+{frame.f_lineno - code.co_firstlineno}')
+        return local_trace
+
+    def global_trace(frame, event, arg):
+        code = frame.f_code
+        if event == 'call' and code.co_name in traced and code.co_filename == netfile: return local_trace
+        return None
+
+    orig_from_units = net.Network.from_units.__func__
+
+    def from_units(cls, units, *a, **k):
+        rec = REC
+        if rec is None or not rec.in_from_units or not rec.trace or _sys.gettrace() is not None:
+            return orig_from_units(cls, units, *a, **k)
+        _sys.settrace(global_trace)
+        try: return orig_from_units(cls, units, *a, **k)
+        finally: _sys.settrace(None)
+    net.Network.from_units = classmethod(from_units)
 
     net.Network.sort = sort
     net.find_paths_with_and_without_recycle = find
@@ -402,6 +433,10 @@ def check_network(units, nw):
             cut = [(u, s._sink) for u in units for s in u._outs if s._sink in given and s not in R]
             rm2 = reach_map(units, cut)
             if any(u in rm2[u] for u in units): bad.append('recycles-do-not-cut')
+        def on_cycle(r):
+            a, b = r._source, r._sink
+            return a in given and b in given and any(x is r for x in a._outs) and (a is b or a in rm[b])
+        if not all(on_cycle(r) for r in R): bad.append('recycle-off-cycle')
         lp = loops(nw, [])
         if any(not pos[a] < pos[b] and not (a in rm[b] and any(a in l and b in l for l in lp)) for a, b in edges):
             bad.append('backward')
@@ -622,6 +657,11 @@ def run_round(rnd, rec, units, streams, shape, edges, order, probes, failures, t
         tags.append(f'{kind}:{verdict}')
         if any(isinstance(i, net.Network) for i in nw.path): tags.append('result:nested')
         if nw.recycle: tags.append('result:top-recycle')
+        if cyclic and not clauses:
+            # not claimed by the property text, counted so that a drift is visible: warning of the final sort,
+            # loops that hold units on no cycle
+            if rec.last_warn: tags.append('unclaimed:final-sort-warned')
+            if any(any(u not in rm[u] for u in l) for l in loops(nw, [])): tags.append('unclaimed:loop-holds-unit-off-cycle')
         for clause in clauses:            # one failure per failing clause: a listed finding cannot hide another clause
             sig = f'{kind}:{clause}'
             what = f'Network.from_units on a {kind} flowsheet of {n} units{where}: checker clause `{clause}` fails'
@@ -660,7 +700,11 @@ def run_impl(case: Case) -> ImplResult:
     del net.disjunctions[:]               # the registry is module-level state: every case starts from an empty one
     units, streams = build(shape, rounds[0][0], fmass)
     rec = Recorder(units[:m])
+    global NCASE
+    NCASE += 1
+    rec.trace = NCASE % 4 == 0 or bool(case.meta.get('family'))
     failures, tags = [], []
+    if rec.trace: tags.append('asm:traced-case')
     prev = None
     for rnd, (edges, order, probes) in enumerate(rounds):
         if rnd:
@@ -671,8 +715,9 @@ def run_impl(case: Case) -> ImplResult:
         run_round(rnd, rec, units, streams, shape, edges, order, probes, failures, tags, m)
         prev = edges
     del net.disjunctions[:]
+    if case.meta.get('family'): tags.append('family:' + case.meta['family'])
     tags.append(f'n={m}'); tags.append(f'rounds={len(rounds)}'); tags.append(f'orders-of-flowsheet={case.meta.get("orders", 1)}')
-    tags.extend(sorted(rec.tags))
+    tags.extend(sorted(rec.tags)); tags.extend(sorted(rec.asm))
     key = (tuple(shape), m, tuple(sorted(fmass.items())), tuple((tuple(e), tuple(o)) for e, o, _ in rounds))
     return ImplResult(model_in=[l for l, _ in rec.lines], outs=[o for _, o in rec.lines], failures=failures,
                       tags=tags, nontrivial=(key if any(e for e, _, _ in rounds) else None))
@@ -724,9 +769,8 @@ def gen_random(rng, n, nback, extra=None):
         connect(u, v)
     for _ in range(nback):
         u, v = rng.randrange(n), rng.randrange(n)
-        if u == v: continue
         if u > v: u, v = v, u
-        connect(v, u)
+        connect(v, u)                     # u == v: a stream from a unit back to itself
     if not in_quantifier(shape, edges): return None
     used = {e[1] for e in edges}
     fmass = {}
@@ -801,10 +845,9 @@ def mutate_edges(rng, shape, edges, m=None):
                 elif free_out: es[k] = (rng.choice(free_out), b)
             elif kind == 'add' and free_out and free_in:
                 a, b = rng.choice(free_out), rng.choice(free_in)
-                if a[0] != b[0]: es.append((a, b))
+                es.append((a, b))
             elif kind == 'remove' and len(es) > 1:
                 es.pop(rng.randrange(len(es)))
-        es = [e for e in es if e[0][0] != e[1][0]]
         if sorted(es) != sorted(edges) and clean_edges(shape, es) == es and \
                 in_quantifier(*induced(shape, es, len(shape) if m is None else m)):
             # at most 3 streams against a topological order of the rest is not checked here: the generator
@@ -872,6 +915,55 @@ def small_cyclic(n):
                 if in_quantifier(sh, es): yield sh, es
 
 
+def loop_cluster(L, intervals, big, second):
+    """a train of L units with a back-edge j → i for every interval (i, j): loops that share units, nest or follow each
+    other; the largest feed enters at unit `big`, the second largest at `second` (so loops are discovered from different
+    feeds, after sub-networks already exist); None if the ports do not suffice"""
+    ins = {u: 0 for u in range(L)}; outs = {u: 0 for u in range(L)}
+    edges = []
+    def connect(a, b):
+        edges.append(((a, outs[a]), (b, ins[b]))); outs[a] += 1; ins[b] += 1
+    for u in range(L - 1): connect(u, u + 1)
+    for (i_, j_) in intervals: connect(j_, i_)
+    if any(ins[u] > 3 or outs[u] > 3 for u in range(L)): return None
+    shape, fmass = [], {}
+    for u in range(L):
+        ni = ins[u] + (1 if ins[u] < 3 else 0)          # a feed port where there is room
+        no = outs[u] + (1 if outs[u] < 3 and (u == L - 1 or u % 2 == 0) else 0)
+        shape.append((max(ni, 1), max(no, 1)))
+        if ni > ins[u]: fmass[(u, ins[u])] = 8 if u == big else (4 if u == second else 1)
+    if not in_quantifier(shape, edges): return None
+    return shape, edges, fmass
+
+
+def loop_clusters(tier):
+    """deterministic family: 2-3 loops on a train of 3-5 units, every choice of the two largest feeds"""
+    for L in (3, 4, 5):
+        ivs = [(i_, j_) for i_ in range(L) for j_ in range(i_, L) if (i_, j_) != (0, L - 1) or L == 3]
+        combos = list(itertools.combinations(ivs, 2)) + (list(itertools.combinations(ivs, 3)) if L <= 4 else [])
+        if L == 5 and tier == 'quick': combos = combos[::7]
+        for iv in combos:
+            for big in range(L):
+                for second in range(L):
+                    if second == big: continue
+                    if L >= 4 and tier == 'quick' and (big + second) % 2: continue
+                    g = loop_cluster(L, iv, big, second)
+                    if g is not None: yield g
+
+
+def loop_chains():
+    """three loops in a row on a train of 4-6 units, (0..a), (a..b), (b..L-1): the long last loop is joined first, the
+    first loop then absorbs it through the connecting one (the absorbing branch of _insert_recycle_network)"""
+    for L in (4, 5, 6):
+        for a in range(1, L - 1):
+            for b_ in range(a + 1, L - 1):
+                for big in range(L):
+                    for second in range(L):
+                        if second == big: continue
+                        g = loop_cluster(L, [(0, a), (a, b_), (b_, L - 1)], big, second)
+                        if g is not None: yield g
+
+
 def with_meta(case, norders):
     case.meta['orders'] = norders if norders <= 6 else ('7-24' if norders <= 24 else '>24')
     return case
@@ -899,6 +991,15 @@ def generate(rng, tier, index, nworkers):
                 k += 1
                 if k % nworkers == index:
                     yield with_meta(make_case(shape, edges, {}, list(order)), math.factorial(n))
+    # ---- loop clusters (nested loops sharing units, sibling loops, loops found from secondary feeds)
+    for shape, edges, fmass in itertools.chain(loop_clusters(tier), loop_chains()):
+        n = len(shape)
+        os_ = [list(p_) for p_ in itertools.permutations(range(n))] if n <= 3 else orders(random.Random(k), n, 4 if tier == 'quick' else 12)
+        for o in os_:
+            k += 1
+            if k % nworkers == index:
+                c = with_meta(make_case(shape, edges, fmass, o), len(os_)); c.meta['family'] = 'loop-cluster'
+                yield c
     # ---- random part
     share = max(1, b['cases'] // nworkers)
     produced = 0
